@@ -879,3 +879,103 @@ def dotnet_table_cases(r, d, per_table=10, only=None):
                                 row[0:2] = ((int.from_bytes(row[0:2], "little") + 1) & 0xffff).to_bytes(2, "little")
                             out.append(("X%d:%s" % (do, bytes(row).hex()), "dotnet-row-shared:" + name)); made += 1
     return out
+
+
+# ---------------------------------------------------------------------------------------------------------------------
+# VS_VERSIONINFO (RT_VERSION resource): String keys / values of chosen lengths, resource name strings, .NET stream names —
+# every fixed-size local buffer the modules copy file strings into gets size-1 / size / size+1 (pe.c key[64], value[256];
+# dotnet.c stream_name[32+1], typelib[255+1])
+def _a4(x): return (x + 3) & ~3
+
+
+def version_info_strings(d):
+    """-> (offset of the first String entry of the first StringTable, offset of the second one or None, end of file) or None"""
+    pe = PEInfo(d)
+    if not pe.ok or len(pe.dirs) < 3 or not pe.dirs[2][0]:
+        return None
+    rs = pe.off(pe.dirs[2][0])
+    if rs is None:
+        return None
+    n = len(d)
+    def leafs(o, depth, ty):
+        if depth > 3 or o + 16 > n: return
+        cnt = (u16(d, o + 12) or 0) + (u16(d, o + 14) or 0)
+        for k in range(min(cnt, 64)):
+            eo = o + 16 + 8 * k
+            if eo + 8 > n: return
+            name, v = u32(d, eo), u32(d, eo + 4)
+            t = name if depth == 0 else ty
+            if v & 0x80000000:
+                yield from leafs(rs + (v & 0x7fffffff), depth + 1, t)
+            elif rs + v + 16 <= n and t == 16:
+                yield rs + v
+    for de in leafs(rs, 0, None):
+        vi = pe.off(u32(d, de) or 0)
+        if vi is None or vi + 100 > n: continue
+        if d[vi + 6:vi + 36] != "VS_VERSION_INFO".encode("utf-16le"): continue
+        p = _a4(vi + 92)
+        def key(o):
+            e = o + 6; out = b""
+            while e + 1 < n and d[e:e + 2] != b"\0\0" and len(out) < 200: out += d[e:e + 2]; e += 2
+            return out.decode("utf-16le", "replace")
+        while p + 6 < n and key(p) == "VarFileInfo" and u16(d, p): p = _a4(p + u16(d, p))
+        if p + 6 < n and key(p) == "StringFileInfo":
+            st = _a4(p + 6 + 30)
+            if st + 6 >= n: continue
+            s0 = _a4(st + 6 + 2 * (len(key(st)) + 1))
+            if s0 + 6 >= n: continue
+            l0 = u16(d, s0) or 0
+            s1 = _a4(s0 + l0) if l0 else None
+            return s0, s1, n
+    return None
+
+
+def version_info_cases(r, d):
+    V = version_info_strings(d)
+    out = []
+    if V:
+        s0, s1, n = V
+        for at in [s0] + ([s1] if s1 and s1 + 6 < n else []):
+            for klen in (1, 31, 62, 63, 64, 65, 127, 128, 255, 256, 257, 1000):
+                for vlen in (0, 1, 254, 255, 256, 257, 1000):
+                    if r.random() > (1.0 if klen in (63, 64, 65, 255, 256) or vlen in (255, 256, 257) else 0.25):
+                        continue
+                    k = ("K" * klen).encode("utf-16le") + b"\0\0"
+                    v = ("v" * vlen).encode("utf-16le") + b"\0\0"
+                    body_off = _a4(at + 6 + len(k)) - at
+                    total = body_off + len(v)
+                    if at + total + 8 > n:
+                        continue
+                    for length, vl in ((total, vlen + 1), (total, 0), (0xffff, vlen + 1), (total - 2, 0xffff), (6, vlen + 1)):
+                        ent = (length & 0xffff).to_bytes(2, "little") + (vl & 0xffff).to_bytes(2, "little") + b"\x01\x00" + k
+                        ent += bytes(body_off - len(ent)) + v
+                        out.append(("X%d:%s" % (at, ent.hex()), "version-info:key%d" % (klen if klen in (63, 64, 65, 255, 256) else 0)))
+                        if r.random() < 0.6: break
+    # resource directory name strings (IMAGE_RESOURCE_DIR_STRING_U: Length + UTF-16 chars)
+    pe = PEInfo(d)
+    if pe.ok and len(pe.dirs) > 2 and pe.dirs[2][0]:
+        rs = pe.off(pe.dirs[2][0])
+        n = len(d)
+        if rs is not None:
+            seen = 0
+            stack = [(rs, 0)]
+            while stack and seen < 6:
+                o, depth = stack.pop()
+                if depth > 3 or o + 16 > n: continue
+                cnt = (u16(d, o + 12) or 0) + (u16(d, o + 14) or 0)
+                for k in range(min(cnt, 32)):
+                    eo = o + 16 + 8 * k
+                    if eo + 8 > n: break
+                    name, v = u32(d, eo), u32(d, eo + 4)
+                    if name & 0x80000000 and rs + (name & 0x7fffffff) + 2 <= n and seen < 6:
+                        so = rs + (name & 0x7fffffff); seen += 1
+                        for L in (0, 1, 0x7f, 0x80, 0x7fff, 0x8000, 0xffff, (n - so - 2) // 2, (n - so - 2) // 2 + 1):
+                            out.append(("W%d:2:%x" % (so, L & 0xffff), "resource-name-length"))
+                    if v & 0x80000000: stack.append((rs + (v & 0x7fffffff), depth + 1))
+    # .NET stream names without terminator around DOTNET_STREAM_NAME_SIZE (32)
+    for off, w, en, lab in (pe.F if pe.ok else []):
+        if lab.startswith("stream") and lab.endswith(".Name"):
+            for L in (31, 32, 33, 64):
+                if off + L < len(d):
+                    out.append(("X%d:%s" % (off, (b"#" + b"A" * (L - 1)).hex()), "dotnet-stream-name"))
+    return out
